@@ -41,6 +41,10 @@ class Ctx:
         return self._ws
 
 
+def object_classes_cached(F):
+    return set(object_classes(F))
+
+
 def run_layout(F, rep, write_rules=(), read_rules=(), roundtrip=False, reencode=False, extra_classes=(), only=None):
     LR = LayoutRules(F, rep)
     classes = (object_classes(F) if only is None else list(only)) + list(extra_classes)
@@ -70,12 +74,15 @@ def C01(F, rep, tier, cx):
     RF.S2S3(F, rep, cx.FL, {'S3'})
     RF.F3p(F, rep, cx.FL)   # container payload is what its method field says (compress <-> uncompress agree)
     RF.P4(F, rep, cx.FL)    # the stream never discards bytes that have not been read
+    RF.R5(F, rep)           # ... and never moves the put position over bytes it does not hold
+    RP.P6(F, rep, cx.R, cx.FL)   # ... and the decoder never rewinds into bytes it let go
+    RF.K12(F, rep, cx.R, cx.FL)  # every object handed to write() reaches the file: the workers drain, close() does not cut them short
     RF.A1(F, rep)           # the API passes the queue's objects and its end-of-file state through unchanged
 
 
 def C02(F, rep, tier, cx):
     """L2r: write() interpreted from the state read() leaves, for every reader path over arbitrary input; L7 nothing dropped"""
-    run_layout(F, rep, read_rules=('L7',), reencode=True, extra_classes=(FILESTAT,))
+    run_layout(F, rep, read_rules=('L7', 'L9'), reencode=True, extra_classes=(FILESTAT,))
 
 
 def C03(F, rep, tier, cx):
@@ -136,6 +143,13 @@ def C04(F, rep, tier, cx):
     RF.F5F6(F, rep, cx.R)
     RF.G1(F, rep)   # no state shared between File instances (a static work buffer corrupts concurrent sessions)
     RF.E2B3(F, rep, cx.FL, {'E2'})
+    # "identical for all container sizes": the stream between encoder and compressor completes every chunked request
+    RF.R1(F, rep)
+    RF.R4(F, rep)
+    RF.R5(F, rep)
+    # "exactly the objects written": no worker gives up early (a timed wait that is treated as a wake-up, a worker stopped by close())
+    RP.K2(F, rep, cx.R)
+    RF.K12(F, rep, cx.R, cx.FL)
 
 
 def stat_size(F, rep):
@@ -164,6 +178,7 @@ def C05(F, rep, tier, cx):
     RF.H1(F, rep, cx.FL)
     RF.H2(F, rep, cx.R, cx.FL)
     RF.H3(F, rep)
+    RF.H4(F, rep)
     LR = run_layout(F, rep, roundtrip=True, only=[], extra_classes=(FILESTAT,))
     format_table(F, rep, LR, FILESTAT, FORMAT_FILESTATISTICS, 'F2', total=144)
     stat_size(F, rep)
@@ -185,6 +200,7 @@ def C06(F, rep, tier, cx):
     RP.K6(F, rep, cx.R, cx.FL, ws)
     RP.K10(F, rep, cx.R, cx.FL)
     RP.T2(F, rep, cx.R, cx.FL, ws)
+    RP.P6(F, rep, cx.R, cx.FL)   # a rewind into released data makes the decoder spin on an empty, 'good' stream
 
 
 def C07(F, rep, tier, cx):
@@ -195,6 +211,8 @@ def C07(F, rep, tier, cx):
     RP.K7(F, rep, cx.R, ws)
     RP.K8(F, rep, cx.R, cx.FL)
     RF.K11(F, rep, cx.R, cx.FL)
+    RF.K12(F, rep, cx.R, cx.FL)
+    RP.K2u(F, rep, cx.R, ws)
     RP.Q(F, rep, cx.R, cx.FL)
     rep.obs = [o for o in rep.obs if o['rule'] not in ('Q1', 'Q3')]
     rep.counts.pop('Q1', None)
@@ -211,6 +229,8 @@ def C08(F, rep, tier, cx):
     RF.E2B3(F, rep, cx.FL, {'E2'})
     RF.E4(F, rep)
     RP.K5(F, rep, cx.R, cx.FL, ('BLF',), 'library-exception')
+    run_layout(F, rep, read_rules=('E6',), extra_classes=(LOGCONT,) if LOGCONT not in object_classes_cached(F) else ())
+    RF.E5(F, rep, cx.R)
 
 
 def C09(F, rep, tier, cx):
@@ -255,6 +275,7 @@ def C11(F, rep, tier, cx):
 def C12(F, rep, tier, cx):
     """P1 finite capacities configured; P2 every insertion preceded by a back-pressure wait; P3 dropOldData on every committing path"""
     RP.P(F, rep, cx.R, cx.FL, cx.ws())
+    RP.P6(F, rep, cx.R, cx.FL)
     RF.P4(F, rep, cx.FL)
     RF.P5(F, rep, cx.FL)
 
@@ -267,6 +288,7 @@ def C13(F, rep, tier, cx):
     RF.O3(F, rep, cx.R, cx.FL)
     RF.O4(F, rep, cx.R, cx.FL)
     RP.K6(F, rep, cx.R, cx.FL, cx.ws())   # "sessions shut down cleanly": close() must be able to return (shared with C06)
+    RF.K12(F, rep, cx.R, cx.FL)           # ... and a write session is drained before it
     RF.A1(F, rep)                          # good()/eof() report the queue's state, read() hands the caller what the queue returned
 
 
@@ -290,6 +312,8 @@ def C15(F, rep, tier, cx):
     RF.R1(F, rep)
     RF.R2(F, rep, cx.FL)
     RF.R3(F, rep, cx.FL)
+    RF.R4(F, rep)
+    RF.R5(F, rep)
     RF.P5(F, rep, cx.FL)
     RF.P4(F, rep, cx.FL)
     RF.S4(F, rep)
